@@ -91,3 +91,45 @@ Example cancel_last_nothing_outlives_close :
   pats (close_steps s_open mid_close_send [] []) = [] /\
   snd (run Fixed (close_steps s_open mid_close_send [] []) reopen_and_wait) = [].
 Proof. vm_compute. auto. Qed.
+
+(* ================================================================================================
+   A FAILED open_link: get_link_driver() returned a connected driver, then the connection set-up raised (the driver's
+   first send_packet fails).  The code closes the driver and sets self.link = None on this exit (and has no link on the
+   "no driver found" exit): in the model, a session that is opened and lost at once.  Variant: keeping self.link pointing
+   at the closed driver (seeded change C10-q) is refuted. *)
+Definition failed_open (s : state) (n : bool) : state := fst (step Fixed (fst (step Fixed s (Open n))) LinkErr).
+Definition failed_open_keeps_link (s : state) (n : bool) : state := fst (step Fixed s (Open n)).
+
+(* after a failed open there is no link, nothing is pending, no timer is armed; whatever is sent or received afterwards
+   changes nothing and transmits nothing (requests are dropped, no timer is armed) until a later open_link succeeds *)
+Theorem failed_open_leaves_no_link s n evs :
+  Inv s -> link s = None -> Forall sender_event evs ->
+  let s' := failed_open s n in
+  link s' = None /\ pats s' = [] /\ (forall j t, nth_error (timers s') j = Some t -> t_status t <> Armed) /\
+  fst (run Fixed s' evs) = s' /\ Forall (fun o => ~ is_tx o) (snd (run Fixed s' evs)).
+Proof.
+  intros I L F s'. unfold s', failed_open.
+  pose proof (inv_step s (Open n) I) as I1. set (s1 := fst (step Fixed s (Open n))) in *.
+  assert (link s1 <> None) as L1 by (unfold s1; cbn [step]; rewrite L; cbn; discriminate).
+  pose proof (inv_step s1 LinkErr I1) as I2. set (s2 := fst (step Fixed s1 LinkErr)) in *.
+  assert (pats s2 = [] /\ link s2 = None) as [P Ln].
+  { unfold s2. cbn [step]. destruct (link s1); [cbn; auto | congruence]. }
+  split; [exact Ln|]. split; [exact P|]. split.
+  - intros j t E A. pose proof (inv_armed s2 I2 j t E A) as X. rewrite P in X. discriminate.
+  - split; [apply senders_no_link; assumption|].
+    clear -Ln F. revert F. generalize s2 Ln. induction evs as [|e evs IH]; intros s0 L0 F; cbn [run]; [constructor|].
+    inversion F as [|? ? He F']; subst. pose proof (sender_no_link s0 e L0 He) as E.
+    pose proof (closed_link_silent Fixed s0 e L0) as Q.
+    destruct (step Fixed s0 e) as [s1' o1]. cbn [fst snd] in *. subst s1'.
+    specialize (IH s0 L0 F'). destruct (run Fixed s0 evs) as [s2' o2]. cbn [snd] in *.
+    apply Forall_app. split; assumption.
+Qed.
+
+(* refutation of keeping the link: a request sent after the failed open is handed to the (closed) driver and gets a timer;
+   after the next successful open_link it is retransmitted on the new link *)
+Example failed_open_keeping_link_refuted :
+  let s := failed_open_keeps_link init true in
+  snd (run Fixed s [Send 1 145 [1] [7] 100]) = [OTx 0 1 0 0] /\
+  pats (fst (run Fixed s [Send 1 145 [1] [7] 100])) = [([157; 7], 0%nat)] /\
+  snd (run Fixed (failed_open init true) [Send 1 145 [1] [7] 100]) = [].
+Proof. vm_compute. auto. Qed.
